@@ -36,6 +36,7 @@ type Frame struct {
 	retTo   ssa.Value // nil: discard
 	inDefer bool      // this frame runs a deferred call: on return the caller re-executes RunDefers
 	marker  bool      // nested-run boundary
+	critEpoch int    // critical-section obligations: acquisition count at the first guarded call of this operation
 	result  Value     // for marker frames
 }
 
@@ -80,6 +81,7 @@ type State struct {
 	stubCalls int
 	lastNow   []*Term
 	lockCounts map[string]int
+	lockEpochs map[string]int // mutex name -> number of acquisitions so far (copy-on-write)
 	gfs       *ghostFS
 	imprecise bool
 	unwind  int
@@ -164,6 +166,7 @@ func (st *State) clone() *State {
 	for k, v := range st.held {
 		n.held[k] = v
 	}
+	n.lockEpochs = st.lockEpochs
 	n.heldNames = make(map[string]string, len(st.heldNames))
 	for k, v := range st.heldNames {
 		n.heldNames[k] = v
